@@ -2,19 +2,21 @@
 
 A template (contracts/*.rs) is a complete Verus file.  Regions between
 
-    //@unit <file> <kind> <name> [impl=<regex>] [nth=<k>] [rules=<r1,r2(arg),...>] [as=<label>]
+    //@unit <file> <kind> <name> [impl=<regex>] [nth=<k>] [as=<label>]
+    //@rule <rule>(<args>)
     ...
     //@end
 
 hold the *woven* form of one item of /repo: its (normalised) text plus inserted specification
 text.  On every run the item is re-extracted from /repo's working tree and normalised with the
-rule table; the specification insertions are recovered as the token-level difference between
-the frozen normalised text (contracts/frozen/<template>.json, written by `vt freeze`) and the
-template region -- that difference must consist of insertions only, and every inserted run
-must have a ghost form (see ghost_form) -- and are then transported onto the *current* text
-through a token diff frozen -> current.  The generated region therefore always is
-"current repo text + inserted ghost text"; on an unchanged tree it equals the template region
-token for token.
+rule table.  The specification tokens of the template region are recognised syntactically
+(ghost_mask: proof blocks, let ghost, assert.., clause lists, result / iterator naming, allowed
+verifier attributes); everything else must equal, token for token, the frozen normalised text
+(contracts/frozen/<template>.json, written by `vt freeze`).  The specification runs are then
+transported onto the *current* text through a token diff frozen -> current.  The generated
+region therefore always is "current repo text + inserted ghost text"; on an unchanged tree it
+equals the template region token for token.  `//@include <path>` lines are expanded textually
+first, so shared preludes may contain units as well.
 """
 import difflib
 import hashlib
